@@ -53,6 +53,22 @@ Proof.
   repeat match goal with E : (_ <=? _) = true |- _ => apply Z.leb_le in E end. lia.
 Qed.
 
+Lemma params_ok_more : forall P, params_ok P = true ->
+  forallb (fun bm => (1 <=? fst bm) && (fst bm <=? snd bm)) (ep_more_prev P) = true.
+Proof. intros P H. unfold params_ok in H. apply andb_true_iff in H. destruct H as [_ H]. exact H. Qed.
+
+(* a guarded previous-line lookup cannot raise once the line number is at most len(lines) *)
+Lemma prevs_ok_holds : forall (A : Type) (lines : list A) ln l,
+  forallb (fun bm => (1 <=? fst bm) && (fst bm <=? snd bm)) l = true ->
+  ln <= Z.of_nat (length lines) -> prevs_ok lines ln l = true.
+Proof.
+  intros A lines ln l. induction l as [|[b m] t IH]; intros Hl Hn; cbn in *; [reflexivity|].
+  apply andb_true_iff in Hl. destruct Hl as [Hbm Ht]. apply andb_true_iff in Hbm. destruct Hbm as [H1 H2].
+  apply Z.leb_le in H1. apply Z.leb_le in H2. rewrite (IH Ht Hn), andb_true_r.
+  destruct (m <=? ln) eqn:E; [|reflexivity]. apply Z.leb_le in E.
+  destruct (py_index lines (ln - b)) eqn:Ep; [reflexivity|]. apply py_index_none in Ep. exfalso. apply Ep. lia.
+Qed.
+
 Theorem emit_wellformed : forall (A : Type) (P : emit_params) (lines : list A) lineno col,
   params_ok P = true ->
   1 <= lineno <= Z.of_nat (length lines) ->
@@ -68,6 +84,7 @@ Proof.
   assert (Hprev : exists b, (if ep_prev_min P <=? lineno then py_index lines (lineno - ep_prev_off P) else Some a) = Some b).
   { destruct (ep_prev_min P <=? lineno) eqn:E3; [|eexists; reflexivity]. apply Z.leb_le in E3. apply py_index_some. fold n. lia. }
   destruct Hprev as [b Hb]. rewrite Hb.
+  rewrite (prevs_ok_holds A lines lineno (ep_more_prev P) (params_ok_more P Hok)) by (fold n; lia). cbn [negb].
   set (lo := Z.max (lineno - ep_context P) 1). set (hi := Z.min (lineno + ep_context P + ep_after_extra P) (n + 1)).
   assert (Hlo : 1 <= lo) by (unfold lo; lia).
   assert (Hlohi : lo <= hi) by (unfold lo, hi; lia).
@@ -113,6 +130,7 @@ Proof.
   assert (Hprev : exists b, (if ep_prev_min P <=? lineno then py_index lines (lineno - ep_prev_off P) else Some a) = Some b).
   { destruct (ep_prev_min P <=? lineno) eqn:E3; [|eexists; reflexivity]. apply Z.leb_le in E3. apply py_index_some. fold n. lia. }
   destruct Hprev as [b Hb]. rewrite Hb.
+  rewrite (prevs_ok_holds A lines lineno (ep_more_prev P) (params_ok_more P Hok)) by (fold n; lia). cbn [negb].
   set (lo := Z.max (lineno - ep_context P) 1). set (hi := Z.min (lineno + ep_context P + ep_after_extra P) (n + 1)).
   destruct (ctx_loop_ok A lines lineno (match col with Some _ => true | None => false end) (Z.to_nat (hi - lo)) lo) as [ctx [Hc _]].
   { unfold lo. lia. }
